@@ -24,16 +24,17 @@ from bounded import oracle as O
 from bounded import C03 as base
 
 ID = "C04"
-RULE = ("one case = (dataset, element naming, scheme) from the sweep of C03 (all datasets of <= 2 rankings from R(3), "
-        "corner datasets incl. single-element universes and single-ranking datasets, seeded datasets n<=5); inside a case "
+RULE = ("one case = (dataset, element naming, scheme) from the sweep of C03 with another seed (all datasets of <= 2 "
+        "rankings from R(3) x 3 (naming, scheme) pairs, 17 corner datasets incl. single-element universes and "
+        "single-ranking datasets x 7 namings x 5 schemes, 600 seeded datasets n<=5 m<=4); inside a case "
         "every configuration x return_at_most_one_ranking in {True, False} (x every pivot sequence for n<=4) that returns "
         "a consensus has features[KEMENY_SCORE] and then kemeny_score compared with the definitional K of every returned "
         "ranking; plus 3 directly built Consensus objects per case (lazy path on arbitrary candidates). distinct = "
         "distinct (dataset, naming, scheme, configuration, one, pivot sequence) whose consensus reported a score; "
         "a case is trivial when nothing reported a score.")
 EXHAUSTIVE = {"quick": False, "thorough": False}
-SCOPE = {"quick": "700 datasets (n<=3, m<=2, exhaustive) x 2 schemes + 233 x 6 namings + 14 corner datasets x 6 namings x 3 "
-                  "schemes + 250 sampled (n<=5, m<=4); %d schemes rotating (presets, multiples, generic, boundary, "
+SCOPE = {"quick": "700 datasets (n<=3, m<=2, exhaustive) x 3 (naming, scheme) + 17 corner datasets x 7 namings x 5 "
+                  "schemes + 600 sampled (n<=5, m<=4); %d schemes rotating (presets, multiples, generic, boundary, "
                   "all-zero T)" % len(base.SCHEMES),
          "thorough": "adds all datasets n<=3 m=3 (17.6k), n=4 m<=2 (22k), 4000 sampled (n<=6, m<=5)"}
 CHUNK = 4
@@ -92,7 +93,7 @@ def judge(value, truths):
 
 
 def check_case(case):
-    from bounded import adapt as A
+    from bounded import adapt as A, algs
     from corankco.consensus import Consensus, ConsensusFeature
     rankings, scheme = case["rankings"], case["scheme"]
     exp_r, _ = A.expected_names(rankings)
@@ -118,6 +119,11 @@ def check_case(case):
                 except Exception:
                     continue                # not a list of rankings: C03
                 if not raws:
+                    continue
+                try:
+                    if algs.well_formed(cons, set(universe), one) is not None:
+                        continue            # K(r, D) is only defined for rankings over exactly the universe: C03
+                except Exception:
                     continue
                 truths = [O.kemeny(r, exp_r, B, T) for r in raws]
                 ctx = {"config": label, "one": one, "run": tag, "consensus": raws[:4], "K": truths[:4]}
